@@ -59,6 +59,16 @@ abbrev Mem := Loc → Int
 def dispIndex (dispUnit disp : Nat) : Option Nat :=
   if (disp * dispUnit) % 4 = 0 then some (disp * dispUnit / 4) else none
 
+/-- `disp_unit` is an argument of `MPI_Win_create` that every rank chooses for *its own* window (`Win::disp_unit_`), and
+a displacement is scaled by the unit of the rank that owns the memory: `recv_win->base_ + target_disp *
+recv_win->disp_unit_` in `Win::put` / `accumulate_unlocked`, `send_win->base_ + target_disp * send_win->disp_unit_` in
+`Win::get` (hence Get_accumulate, Fetch_and_op, Compare_and_swap).  `dus` = the units of ranks 0..n-1; the origin's own
+unit plays no role.  `none`: no such target, or misaligned. -/
+def dispIndexAt (dus : List Nat) (t disp : Nat) : Option Nat :=
+  match dus[t]? with
+  | some du => dispIndex du disp
+  | none => none
+
 /-! ## The calls -/
 
 /-- one RMA call, displacements already converted to int indices.  `id` names the result buffer. -/
